@@ -109,6 +109,9 @@ def _env_of(interp, frame, extra):
         env.update(d)
     env.update(frame.locals)
     env.update(interp.reg.ghost_env)
+    # ghost state / ghost event trace of the path (as in contract clauses); a local of that name wins
+    env.setdefault('ghost', interp.st.ghost)
+    env.setdefault('trace', interp.st.trace)
     env.update(extra)
     return env
 
